@@ -97,6 +97,7 @@ def run(tier):
     exe = core.build_exe("streamdrv_ocf", ["streamdrv.c"], "ocfsan")
     n = 24 if tier == "quick" else 300
     scen = [gen_wear(rng, tier) for _ in range(n)]
+    ck.sample(scen[0][:14]); ck.sample(scen[1][:14])
     per_batch = 6
     stats = [0, 0, 0, 0]
     for bi in range(0, len(scen), per_batch):
